@@ -562,7 +562,7 @@ update_from_seq(PyObject *map, PyObject *seq)
 
     err = 0;
 err:
-    Py_DECREF(iter);
+    Py_XDECREF(iter);       /* NULL when seq cannot be iterated */
     Py_DECREF(seq);
     return err;
 }
